@@ -119,6 +119,14 @@ modeldisc = _Operators()
 LIMITERS = ["minmod", "vanalbada", "vanleer", "superbee"]
 LINEAR_RECONS = ["extrapol1", "extrapol2", "k-1", "k0", "k1/3", "k1/2", "k1"]
 ALL_RECONS = LINEAR_RECONS + ["muscl_" + l for l in LIMITERS]
+# token-level (metamorphic, round-off) checks also run MUSCL with a USER limiter that is not symmetric in its two arguments
+# (xnum.muscl takes any callable): a limited kappa = 1/3 slope, odd, homogeneous, phi(a, a) = a, inside the TVD region
+TOKEN_RECONS = ALL_RECONS + ["muscl_user"]
+
+
+def user_limiter(a, b):
+    return (2.0 * xnum.minmod(a, 2.0 * b) + xnum.minmod(b, 2.0 * a)) / 3.0
+
 KVAL = {"k-1": -1.0, "k0": 0.0, "k1/3": 1.0 / 3.0, "k1/2": 0.5, "k1": 1.0}
 
 
@@ -146,6 +154,8 @@ def recon(name, fresh=False):
         return xnum.extrapol3()
     if name in KVAL:
         return xnum.extrapolk(KVAL[name])
+    if name == "muscl_user":
+        return xnum.muscl(user_limiter)
     if name.startswith("muscl_"):
         return xnum.muscl(getattr(xnum, name[6:]))
     raise KeyError(name)
